@@ -1298,3 +1298,11 @@ VP("C14-R2C-mut-prefix-upper", "C14", "aliased prefix upper-cased", "C14-R2C", C
    '                name = "%s_%s" % (parent_prefix, name)', '                name = "%s_%s" % (parent_prefix.upper(), name)')
 VP("C14-R2C-mut-explicit-overwritten", "C14", "explicit variable names overwritten by the derived one", "C14-R2C", CORE,
    "        if self.env is True or (self.env is None and has_prefix):", "        if self.env or (self.env is None and has_prefix):")
+VP("C16-R2C-mut-ignore-chars", "C16", "conditional-expression ignore normalisation dropped: a string is a sequence of characters", "C16-R2C", SUP,
+   "    ignored = [ignore] if isinstance(ignore, str) else (ignore or [])", "    ignored = ignore or []")
+VP("C16-R2C-mut-truthy-guard", "C16", "guard-clause override drops falsy supplied values", "C16-R2C", SUP,
+   "        if value is None or key in ignored:\n            continue", "        if not value or key in ignored:\n            continue")
+VP("C16-R2C-mut-ignore-not-consulted", "C16", "guard-clause override ignores the ignore list", "C16-R2C", SUP,
+   "        if value is None or key in ignored:\n            continue", "        if value is None:\n            continue")
+VP("C16-R2C-mut-prefix-lost", "C16", "flattened get_all_fields forgets the prefix of nested paths", "C16-R2C", SUP,
+   "            ret.append((prefix + subkey, owner, subfield))", "            ret.append((subkey, owner, subfield))")
